@@ -31,22 +31,24 @@ TABLES = [
     {"default": "legacy", "per": {"T": "ctx", "R": "legacy"}},
     {"default": None, "per": {"T": "legacy", "R": "ctx", "U": "ctx"}},
     {"default": "ctx", "per": {"R": "ctx"}},
+    {"default": "ctx+opt", "per": {"T": "ctx+opt"}},
 ]
 
 
 def bounds(tier):
     return {"max_attempts": 3 if tier == "quick" else 4,
-            "answers": [1, 9, "nan", -1] if tier == "quick" else [1, 0, 2, 9, "nan", "inf", "-inf", -1]}
+            "answers": [1, 9, "nan"] if tier == "quick" else [1, 0, 2, 9, "nan", "inf", "-inf", -1]}
 
 
 def tasks(tier):
     out = []
     if tier == "quick":
-        menu, alpha, M = [1, 9, "nan", -1], ["ok", "x:T", "x:R+ra", "r:T", "x:U"], 3
+        menu, alpha, M = [1, 9, "nan"], ["ok", "x:T", "x:R+ra", "r:T", "x:U"], 3
     else:
         menu = [1, 0, 2, 9, "nan", "inf", "-inf", -1]
         alpha, M = ["ok", "x:T", "x:R", "x:R+ra", "r:T", "r:R+ra", "x:U"], 3
-    for tb, dl, hd in itertools.product(TABLES, [None, 4], [None, "call", "policy"]):
+    for tb, dl, hd in itertools.product(TABLES, [None, 4],
+                                        [None, "call", "policy"] if tier == "thorough" else [None, "call"]):
         cfg = dict(M=M, strat=tb, deadline=dl, alphabet=alpha, durs=[0, 1], dur_free=True,
                    strat_menu=menu, strat_free=True, handler=hd, handler_menu=["SLEEP", "DEFER"],
                    before_sleep="call" if hd != "policy" else "policy", max_unknown=None,
@@ -71,6 +73,15 @@ def tasks(tier):
     out += nest_tasks(Q4, "delay-reentrant", ["ok", "x:T", "x:R+ra", "r:T"],
                       strat_menu=[1, 9, "nan"], strat_free=True, deadline=6,
                       strat={"default": "ctx", "per": {"T": "legacy"}})
+    # time passes inside the sleep handler; an attempt timeout is configured
+    for tb, at, e in itertools.product(TABLES[:2] + TABLES[4:], [None, 2], Q4):
+        cfg = dict(M=3, strat=tb, deadline=6, alphabet=["ok", "x:T", "x:R+ra", "r:T"],
+                   durs=[0, 1], dur_free=True, strat_menu=[1, 9, 3], strat_free=True,
+                   handler="call", handler_menu=["SLEEP", "DEFER"], handler_free=True,
+                   handler_durs=[0, 2], attempt_timeout=at, max_unknown=None,
+                   loop=e.startswith("Async") and at is not None,
+                   sleeper_async=e.startswith("Async") and at is not None)
+        out.append({"family": "delay-slow-handler", "cfg": cfg, "entry": e, "bound": 1, "weight": 4})
     return out
 
 
@@ -97,6 +108,11 @@ def monitor(w, cfg):
                           f"granted retry after attempt {a.i} with {len(a.strategy)} strategy calls"))
                 continue
             s = a.strategy[0]
+            if s[3] == "NOT-A-CONTEXT":
+                v.append(("c05.not-a-context",
+                          f"context-style strategy {s[1]!r} was called with {s[4]} instead of a "
+                          f"BackoffContext"))
+                continue
             want_stub = strategy_for(cfg, op.klass)
             if s[1] != want_stub:
                 v.append(("c05.wrong-strategy",
